@@ -15,7 +15,7 @@ def terminated(obs, oid, kind, h, stim):
     c = created[0]
     lost = any(m in ('LOST', 'STOP') for m, _ in steps[c:])
     if lost:
-        return True
+        return 'lost'     # ended with the connection: the stream table is judged (C11 clears it), the reassembly cache of the dead connection is not
     recv = [(i, m) for i, (m, _) in enumerate(steps) if m.startswith('RECV:') and int(m.split(':')[2]) == sid and i > c or (i == c and False)]
     peer_cancel = any(m.startswith('RECV:CANCEL:') for _, m in recv)
     peer_term = any((m.startswith('RECV:PAYLOAD:') and m.split(':')[3][1] == '1') or m.startswith('RECV:ERROR:') for _, m in recv)
@@ -80,10 +80,11 @@ class C10(EngineProp):
             sid = obs['sids'][oid]
             if len(live[sid]) > 1:
                 continue
-            if terminated(obs, oid, kind, h, stim):
+            how = terminated(obs, oid, kind, h, stim)
+            if how:
                 if sid in table:
                     fails.append({'signature': 'terminated-stream-still-registered:' + kind, 'what': '%s %d (stream %d) terminated but is still in the stream table' % (kind, oid, sid)})
-                if sid in cache:
+                if sid in cache and how != 'lost':
                     fails.append({'signature': 'terminated-stream-has-partial-frame:' + kind, 'what': '%s %d (stream %d) terminated but a partial frame remains cached' % (kind, oid, sid)})
         if obs.get('extra'):
             for sid in obs['extra']['probes']:
